@@ -241,6 +241,19 @@ func evalC18(c c18Case, o *Obs) error {
 	if len(s.TxOut) > 0 {
 		s.TxOut[0].Value ^= 0x33
 	}
+	for _, in := range s.TxIn {
+		if len(in.SignatureScript) > 0 {
+			in.SignatureScript[0] ^= 0x81
+		}
+	}
+	for _, out := range s.TxOut {
+		if len(out.PkScript) > 0 {
+			out.PkScript[len(out.PkScript)-1] ^= 0x81
+		}
+		if len(out.TokenData.Commitment) > 0 {
+			out.TokenData.Commitment[0] ^= 0x81
+		}
+	}
 	s.LockTime++
 	if again, _ := serializeTx(tx); !bytes.Equal(before, again) {
 		return fmt.Errorf("%s: modifying the sorted copy changed the original transaction", desc)
@@ -450,6 +463,7 @@ func TestC18(t *testing.T) {
 			"relative order of elements with equal keys is not asserted (sort.Sort is not stable)")
 		exhaustiveC18(ev)
 		kC18.Run(t, ev, perShard(pick(6000, 3000000)))
+		runConcurrent(kC18, t, ev, perShard(pick(150, 15000)), 8)
 		ev.requireClasses("C18:already-sorted", "C18:unsorted")
 	})
 }
